@@ -1,11 +1,21 @@
 use std::collections::{HashMap, HashSet};
 use std::fmt::Display;
 use std::sync::{Arc, Mutex};
+#[cfg(not(feature = "verif"))]
 use std::time::{Duration, Instant};
+#[cfg(feature = "verif")]
+use std::time::Duration;
+#[cfg(feature = "verif")]
+use tokio::time::Instant;
 use tokio::sync::mpsc::{error::TryRecvError, UnboundedReceiver};
 
 use backoff::future::retry_notify;
+#[cfg(not(feature = "verif"))]
 use backoff::{Error, ExponentialBackoff};
+#[cfg(feature = "verif")]
+use backoff::Error;
+#[cfg(feature = "verif")]
+use crate::verif_net::ExponentialBackoff;
 
 use teos_common::appointment::Locator;
 use teos_common::cryptography;
